@@ -253,6 +253,19 @@ Example ex_learner : exists stL stM exM,
   /\ m_stores stL = m_stores stM.
 Proof. do 3 eexists. split; [vm_compute; reflexivity|]. split; vm_compute; reflexivity. Qed.
 
+(* the point of a learner in the pipeline model (learner_step: kwargs read off the current store) is learner_elem *)
+Theorem C06_learner_step_is_elem : forall body c f ms sm i ls ls',
+  fspec f = Some ms -> shape_of c f = Ok sm ->
+  learner_step body c f (Some i) ls = ROk ls' ->
+  let stores := stores_of (ls_store ls) f (prod (ext_of (snd sm) (fst sm))) in
+  (forallb (fun st => has_index st i) stores = true /\ ls' = ls)
+  \/ exists kw st,
+       func_kwargs_sel c (ls_store ls) f = Ok kw
+       /\ learner_elem body f ms kw (fst sm) (snd sm) {| m_stores := stores; m_results := []; m_tr := ls_tr ls |} i = ROk st
+       /\ ls_store ls' = put_stores (ls_store ls) f (m_stores st) /\ ls_tr ls' = m_tr st.
+Proof. exact learner_step_is_elem. Qed.
+Print Assumptions C06_learner_step_is_elem.
+
 (* The sequence the learners used before the repair (`range(prod(shape))` over the FULL shape): with an internal
    axis it contains indices beyond the external space, and such an index is computed and dumped at the position of
    an element that was already computed (x[i] -> y[i, n0], 3 x 2: index 3 lands on element 0). *)
